@@ -278,6 +278,54 @@ def run_pair(ctx, wb, lb, cache):
     return v
 
 
+FLAG_BITS = ['%02x' % (1 << b) for b in range(8)] + ['7f', 'fe', '55', 'aa']
+FS8 = tuple(range(1, 9))
+
+
+def flag_bits_case(ctx, fl):
+    """every single flag bit (and four mixed patterns) through every signing builder family with all eight sigfields
+    present: permitted exactly by a lock that allows the bit; covers exactly the fields whose bit is clear"""
+    seed = ctx.seed
+    env.Clock.now = 1_700_000_000
+    flag = int(fl, 16)
+    n = 0
+    fams = (('single', 'single'), ('single2', 'single2'), ('graftroot-key', 'graftroot'), ('graftap-key', 'graftap'), ('multi', 'multisig'))
+    for wf, lf in fams:
+        w = (wf, 'A', fl, FS8, ()) if wf != 'multi' else ('multi', 'AB', fl, FS8, ())
+        try:
+            wb = build_witness(seed, w)
+        except BaseException as e:
+            ctx.violation({'clause': 'witness builder runs', 'family': wf, 'block': 'flag bits'}, f'{w}: {e!r}')
+            continue
+        for al in (fl, '%02x' % (flag ^ 0xff), 'ff'):
+            l = (lf, 'A', al) if lf != 'multisig' else ('multisig', 'AB', 2, al)
+            try:
+                lb = build_lock(seed, l)
+            except BaseException as e:
+                ctx.violation({'clause': 'lock builder runs', 'family': lf, 'block': 'flag bits'}, f'{l}: {e!r}')
+                continue
+            permitted = (flag & ~int(al, 16) & 0xff) == 0
+            for changed in (None,) + (FS8 if al == fl else ()):
+                n += 1
+                cache = sigfields(seed, FS8, (changed,) if changed else ())
+                cache['timestamp'] = 1_700_000_000
+                v = run_pair(ctx, wb, lb, cache)
+                ctx.state(('flagbits', fl, wf, al, changed))
+                ctx.outcome('fb:%s' % (v if type(v) is bool else 'raised'))
+                want = permitted and (changed is None or bool(flag >> (changed - 1) & 1))
+                if v is not want:
+                    ctx.violation({'clause': 'exactly the intended holder can unlock', 'witness': wf, 'lock': lf, 'block': 'flag bits',
+                                   'kind': 'accepts' if v is True else 'rejects'},
+                                  f'{w} x {l} changed field {changed}: run_auth_scripts {v!r}, statement {want}')
+                rv, e = ref_auth([wb, lb], ro=cache, now=1_700_000_000)
+                ctx.ran()
+                if type(rv) is bool and rv is not v:
+                    ctx.violation({'clause': 'verdict differs from the reference interpreter', 'witness': wf, 'lock': lf,
+                                   'block': 'flag bits', 'kind': 'accepts' if v is True else 'rejects'},
+                                  f'{w} x {l} changed field {changed}: run_auth_scripts {v!r}, reference {rv}')
+    ctx.evaluations += max(n - 1, 0)
+
+
 def pair_case(ctx, case):
     wi, tier = case
     seed = ctx.seed
@@ -338,6 +386,8 @@ def blocks(tier, seed):
     nw = len(witness_descriptors(flags))
     return [Block('multisig_wide_quorums', list(WIDE), wide_case,
                   'm-of-n for (m, n) in %s: m holders / m-1 holders / nobody / outsider / one holder repeated' % (WIDE,), nshards=len(WIDE)),
+            Block('flag_bits', list(FLAG_BITS), flag_bits_case, 'flags %s x 5 signing families x allowed {flag, ~flag, ff} x every sigfield '
+                  'changed on the verifier side (all eight present)' % (FLAG_BITS,), nshards=len(FLAG_BITS)),
             Block('witness_x_lock_cross_product', [(i, tier) for i in range(nw)], pair_case,
                   '%d witness descriptors x %d lock descriptors x 3 verifier sigfield contexts; every byte of positive witnesses perturbed'
                   % (nw, len(lock_descriptors(flags))), nshards=nw, backstop=3600)]
